@@ -7,7 +7,7 @@ PATHSETS = [["/"], ["/api"], ["/apiary"], ["/api/v1"], ["/", "/api"], ["/api", "
 TLSOPTS = [dict(tls=False, redirect=True, acme=False), dict(tls=True, redirect=True, acme=False),
            dict(tls=True, redirect=False, acme=False), dict(tls=True, redirect=True, acme=True)]
 REQ_HOSTS = ["a.d", "a.d:8080", "b.a.d", "c.d", "c.b.a.d", "d", "x.y", "localhost", "[::1]:80", "[::1]", "b.a.d:443"]
-REQ_PATHS = ["/", "/api", "/api/", "/apiary", "/api/v1", "/api/v1/x", "/api//x", "//api", "/x", "/apiv1"]
+REQ_PATHS = ["/", "/api", "/api/", "/apiary", "/api/v1", "/api/v1/x", "/api//x", "//api", "/x", "/apiv1", "/api/a%2Fb", "/x%20y/z"]
 SNI = ["a.d", "b.a.d", "c.d", "d", "x.y", "c.b.a.d"]
 
 LABEL = re.compile(r"<(DoDeploy|DoRemove)\(([^)]*)\) line")
